@@ -1,12 +1,12 @@
 (* C16 — VCF genotypes are turned into matching evidence for every variant kind.
-   Only statements here (and witnesses computed by vm_compute); proofs are in proofs/VcfInProofs.v; the model is theories/VcfIn.v.
+   Only statements here (and witnesses computed by vm_compute); proofs are in proofs/VcfInProofs.v and proofs/VcfMnpProofs.v; the model is theories/VcfIn.v.
    [fixed_coverage] / [fixed_total] = Coverage.coverage / Coverage.total as the property states them (variant Fixed), given by the
    allele uses of the diploid records; [shipped_table skipnone] = sam.py _load_vcf + _make_coverage + Coverage.__init__ step by
    step (variant AsShipped; skipnone = the one-line repair `if op is None or op == "_": continue` is in place).
    alt_n = pseudo-reads per alternate copy, ref_n = reference pseudo-reads (c_vcf_reads), vcf_consts_ok : ref_n = 2 * alt_n > 0.
    "Reference support" of an insertion is total(m) - coverage(m): aldy does not count insertions in the depth of a position. *)
 From Coq Require Import String.
-From Aldy Require Import Base Consts Pileup PileupProofs VcfIn VcfInProofs Consts_here Consts_wf.
+From Aldy Require Import Base Consts Pileup PileupProofs VcfIn VcfInProofs VcfMnpProofs Consts_here Consts_wf.
 Import List.
 Open Scope Z_scope.
 
@@ -48,11 +48,8 @@ Proof. exact vcf_support_ins. Qed.
 Goal True. idtac "ASSUME C16_vcf_support_ins". Abort.
 Print Assumptions C16_vcf_support_ins.
 
-(* multi-substitution, however it is written.  PARTIAL: the theorem starts from "every component of m is used n times by the
-   file"; that a file of adjacent substitution records has these uses follows record by record from the substitution lemma
-   (rec_sub_allele1), that the one-record writing has them is shown on the computed instances C16_one_record_mnp_refuted /
-   C16_support_hypotheses_met, not for every catalogued multi-substitution. *)
-Theorem C16_vcf_support_mnp_partial : forall g c rs m n, multi_key_ok g m ->
+(* multi-substitution, however it is written: from the allele uses ... *)
+Theorem C16_vcf_support_mnp : forall g c rs m n, multi_key_ok g m ->
   (forall ck, In ck (comps m) -> n_sub (uses g rs) (snd ck) = n) ->
   fixed_coverage g c rs (multi_key m) = alt_n c * n /\
   (forall ck, In ck (comps m) -> is_ins (snd (snd ck)) = false -> str_eqb (snd (snd ck)) ref_op = false ->
@@ -61,8 +58,73 @@ Theorem C16_vcf_support_mnp_partial : forall g c rs m n, multi_key_ok g m ->
   (forall p, in_range g p = true -> later_comp_at g p = Some m ->
      fixed_coverage g c rs (p, ref_op) = Z.max 0 (ref_n c - alt_n c * n_at (uses g rs) p) + alt_n c * n).
 Proof. exact vcf_support_mnp. Qed.
-Goal True. idtac "ASSUME C16_vcf_support_mnp_partial". Abort.
-Print Assumptions C16_vcf_support_mnp_partial.
+Goal True. idtac "ASSUME C16_vcf_support_mnp". Abort.
+Print Assumptions C16_vcf_support_mnp.
+
+(* ... from the FILE, written as one record (POS = first position, REF = the replaced bases, ALT = the new bases; the gaps of a
+   gapped multi-substitution like A.C>T.T filled with the gene's own bases), for every gene view and every catalogued
+   multi-substitution meeting the decidable condition mnp_record_ok (equal lengths >= 2, ALT read against the gene differs
+   from it exactly at m's components, first base not N); C16_vcf_support_mnp_any_record: the same for ANY REF/ALT strings
+   with that property ... *)
+Theorem C16_vcf_support_mnp_one_record : forall g m, mnp_record_ok g m = true -> forall c pre post a1 a2, multi_key_ok g m ->
+  (a1 = 0 \/ a1 = 1) -> (a2 = 0 \/ a2 = 1) ->
+  (forall ck, In ck (comps m) -> n_sub (uses g (pre ++ post)) (snd ck) = 0) ->
+  let rs := pre ++ rec_mnp g m (gt2 a1 a2) :: post in
+  fixed_coverage g c rs (multi_key m) = alt_n c * (a1 + a2) /\
+  (forall ck, In ck (comps m) -> is_ins (snd (snd ck)) = false -> str_eqb (snd (snd ck)) ref_op = false ->
+     find (fun m' => key_eqb (multi_key m') (snd ck)) (g_all_multi g) = None ->
+     (exists i, comp_of g (snd ck) = Some (i, m)) -> fixed_coverage g c rs (snd ck) = 0) /\
+  (forall p, in_range g p = true -> later_comp_at g p = Some m ->
+     fixed_coverage g c rs (p, ref_op) = Z.max 0 (ref_n c - alt_n c * n_at (uses g rs) p) + alt_n c * (a1 + a2)).
+Proof. exact vcf_support_mnp_one_record. Qed.
+Goal True. idtac "ASSUME C16_vcf_support_mnp_one_record". Abort.
+Print Assumptions C16_vcf_support_mnp_one_record.
+
+(* ... and written as ADJACENT single-base records, one per component (adj_ok: each component is a substitution of the gene's
+   own non-N base) *)
+Theorem C16_vcf_support_mnp_adjacent : forall g c m pre post a1 a2, multi_key_ok g m -> adj_ok g m = true ->
+  (a1 = 0 \/ a1 = 1) -> (a2 = 0 \/ a2 = 1) ->
+  (forall ck, In ck (comps m) -> n_sub (uses g (pre ++ post)) (snd ck) = 0) ->
+  let rs := pre ++ adj_records g m (gt2 a1 a2) ++ post in
+  fixed_coverage g c rs (multi_key m) = alt_n c * (a1 + a2) /\
+  (forall ck, In ck (comps m) -> is_ins (snd (snd ck)) = false -> str_eqb (snd (snd ck)) ref_op = false ->
+     find (fun m' => key_eqb (multi_key m') (snd ck)) (g_all_multi g) = None ->
+     (exists i, comp_of g (snd ck) = Some (i, m)) -> fixed_coverage g c rs (snd ck) = 0) /\
+  (forall p, in_range g p = true -> later_comp_at g p = Some m ->
+     fixed_coverage g c rs (p, ref_op) = Z.max 0 (ref_n c - alt_n c * n_at (uses g rs) p) + alt_n c * (a1 + a2)).
+Proof. exact vcf_support_mnp_adjacent. Qed.
+Goal True. idtac "ASSUME C16_vcf_support_mnp_adjacent". Abort.
+Print Assumptions C16_vcf_support_mnp_adjacent.
+
+Theorem C16_mnp_writings_agree : forall g c m pre post a1 a2, multi_key_ok g m -> mnp_record_ok g m = true -> adj_ok g m = true ->
+  (a1 = 0 \/ a1 = 1) -> (a2 = 0 \/ a2 = 1) ->
+  (forall ck, In ck (comps m) -> n_sub (uses g (pre ++ post)) (snd ck) = 0) ->
+  fixed_coverage g c (pre ++ rec_mnp g m (gt2 a1 a2) :: post) (multi_key m)
+  = fixed_coverage g c (pre ++ adj_records g m (gt2 a1 a2) ++ post) (multi_key m).
+Proof. exact mnp_writings_agree. Qed.
+Goal True. idtac "ASSUME C16_mnp_writings_agree". Abort.
+Print Assumptions C16_mnp_writings_agree.
+
+Theorem C16_vcf_support_mnp_any_record : forall g m p ref alt, mnp_record_ok_at g m p ref alt = true ->
+  forall c pre post a1 a2, multi_key_ok g m -> (a1 = 0 \/ a1 = 1) -> (a2 = 0 \/ a2 = 1) ->
+  (forall ck, In ck (comps m) -> n_sub (uses g (pre ++ post)) (snd ck) = 0) ->
+  let rs := pre ++ rec_mnp_at p ref alt (gt2 a1 a2) :: post in
+  fixed_coverage g c rs (multi_key m) = alt_n c * (a1 + a2) /\
+  (forall ck, In ck (comps m) -> is_ins (snd (snd ck)) = false -> str_eqb (snd (snd ck)) ref_op = false ->
+     find (fun m' => key_eqb (multi_key m') (snd ck)) (g_all_multi g) = None ->
+     (exists i, comp_of g (snd ck) = Some (i, m)) -> fixed_coverage g c rs (snd ck) = 0) /\
+  (forall q, in_range g q = true -> later_comp_at g q = Some m ->
+     fixed_coverage g c rs (q, ref_op) = Z.max 0 (ref_n c - alt_n c * n_at (uses g rs) q) + alt_n c * (a1 + a2)).
+Proof. exact vcf_support_mnp_one_record_at. Qed.
+Goal True. idtac "ASSUME C16_vcf_support_mnp_any_record". Abort.
+Print Assumptions C16_vcf_support_mnp_any_record.
+
+Example C16_mnp_side_conditions_met : mnp_record_ok ex_v (1004, (s "AC", s "GT")) = true /\ adj_ok ex_v (1004, (s "AC", s "GT")) = true.
+Proof. exact mnp_side_conditions_met. Qed.
+Example C16_mnp_gapped_side_conditions_met :
+  rec_mnp ex_vg (1008, (s "A.G", s "C.T")) (gt2 0 1) = mk_vrec 1009 (s "ACG") [s "CCT"] (gt2 0 1) /\
+  mnp_record_ok ex_vg (1008, (s "A.G", s "C.T")) = true /\ adj_ok ex_vg (1008, (s "A.G", s "C.T")) = true.
+Proof. exact mnp_gapped_side_conditions_met. Qed.
 
 (* any number of records: a plain key gets alt_n per use, the reference cell loses alt_n per use at its position *)
 Theorem C16_fixed_plain_support : forall g c rs k, plain g k -> fixed_coverage g c rs k = alt_n c * n_sub (uses g rs) k.
